@@ -5,7 +5,7 @@ import math
 import z3
 
 from mirsym import engine
-from mirsym.interp import Agg, to_z3
+from mirsym.interp import Agg, to_z3, is_z3
 from mirsym.models import dot, cross
 from .common import (ground_model, Call, rvec, zdot, vsub, vadd, hyps_of, side_obligations, model_floats, vec_from, fmt_vec,
                      all_vars, nice_model)
@@ -193,6 +193,66 @@ def decide(run, kind, label, hyps, goal, variables, timeout=60, prefer=None):
         run.suspect.append('C19 %s "%s": solver counterexample %r does not reproduce natively (%s)' % (kind, label, vals, info))
 
 
+def sphere_contains(run, funcs, pid='C19'):
+    """Sphere::contains decides membership up to a RELATIVE tolerance: true only if |x-c|^2 <= r^2 (1 + 1e-9) (any scale), and true whenever
+    |x-c|^2 <= r^2 with r > 0.  (The bounding-sphere solvers and Sphere::extend rely on it at every length scale.)"""
+    from .common import Call as C_
+    ctr, x, r = rvec('c'), rvec('x'), z3.Real('r')
+    mk = lambda c_, r_: engine.make_struct('src/geometry.rs', 'Sphere', center=c_, radius=r_)
+    c = C_(run, funcs, r'geometry::.*::contains$', [mk(ctr, r), x], by_ref=(0,), pre=[r > 0])
+    dx = vsub(x, ctr)
+    d2 = zdot(dx, dx)
+    vs = all_vars(ctr, x) + [r]
+    for k, (st, v) in enumerate(c.outs):
+        H = [r > 0] + hyps_of(st)
+        if is_z3(v):
+            t = to_z3(v)
+        else:
+            t = z3.BoolVal(bool(v))
+        for label, goal, prefer in (
+                ('contains(x) only if |x-c|^2 <= r^2 (1 + 1e-9)', z3.Implies(t, d2 <= r * r * z3.RealVal('1000000001') / z3.RealVal('1000000000')),
+                 [d2 >= 4 * r * r] + [to_z3(q) == 0 for q in ctr.items] + [to_z3(x.items[1]) == 0, to_z3(x.items[2]) == 0]),
+                ('|x-c|^2 <= r^2 implies contains(x)', z3.Implies(d2 <= r * r, t),
+                 [d2 * 4 <= r * r] + [to_z3(q) == 0 for q in ctr.items] + [to_z3(x.items[1]) == 0, to_z3(x.items[2]) == 0])):
+            v_, m = run.prove('%s sphere_contains path %d: %s' % (pid, k, label), H, z3.Not(goal), timeout=30, on_sat='caller', sample={'function': 'Sphere::contains', 'equation': label})
+            if v_ != 'sat':
+                continue
+            s_ = z3.Solver()
+            s_.set('timeout', 20000)
+            for h in H + prefer + [z3.Not(goal)]:
+                s_.add(h)
+            m2 = s_.model() if s_.check() == z3.sat else m
+            vals = model_floats(m2, vs)
+            rep = None
+            for prof in ('debug', 'release'):
+                bad, info = r_contains(vals, prof)
+                if bad:
+                    rep = (prof, info)
+                    break
+            if rep:
+                run.violation('%s Sphere::contains violates "%s" at %r: %s (%s build)' % (pid, label, vals, rep[1], rep[0]),
+                              engine.save_replay(pid, {'kind': 'sphere_contains', 'values': vals, 'equation': label, 'profile': rep[0]}))
+            else:
+                run.suspect.append('%s Sphere::contains "%s": solver counterexample %r does not reproduce natively (%s)' % (pid, label, vals, info))
+
+
+def r_contains(v, prof):
+    c, x, r = vec_from(v, 'c'), vec_from(v, 'x'), v['r']
+    o = nat('sphere_contains %s %s %s' % (fmt_vec(c), engine.f2s(r), fmt_vec(x)), prof)
+    if o is None:
+        return False, 'panic'
+    got = o[0] != 0
+    d2 = np_dot(np_sub(x, c), np_sub(x, c))
+    if got and d2 > r * r * (1 + 1e-6):
+        return True, 'contains() = true although |x-c| = %.6e and r = %.6e' % (math.sqrt(d2), r)
+    if (not got) and r > 0 and d2 <= r * r * (1 - 1e-6):
+        return True, 'contains() = false although |x-c| = %.6e and r = %.6e' % (math.sqrt(d2), r)
+    return False, 'contains() = %s, |x-c| = %.6e, r = %.6e' % (got, math.sqrt(d2), r)
+
+
+REPLAYERS['sphere_contains'] = r_contains
+
+
 def veq(a, b):
     return z3.And([to_z3(x) == to_z3(y) for x, y in zip(a.items, b.items)])
 
@@ -369,6 +429,8 @@ def check(run):
         n_out += 1
     if n_out != 2:
         run.inconclusive.append('Sphere::extend: expected 2 paths (inside / outside), got %d' % n_out)
+
+    sphere_contains(run, funcs, 'C19')
 
     # ---- in_sphere_test (float version) has the same polynomial as the C10 reference
     from . import insphere
